@@ -418,7 +418,7 @@ func init() {
 		Jobs: func(tier string, p *Program) []*Job {
 			var jobs []*Job
 			type cfg struct{ h, el, tl, w int }
-			cfgs := []cfg{{0, 1, 1, 2}, {1, 1, 1, 2}, {2, 1, 1, 2}, {2, 1, 0, 2}, {2, 1, 1, 3}}
+			cfgs := []cfg{{0, 1, 1, 2}, {1, 1, 1, 2}, {2, 1, 1, 2}, {2, 1, 0, 2}, {2, 1, 1, 3}, {1, 2, 1, 4}, {1, 3, 2, 4}}
 			if tier == "thorough" {
 				cfgs = append(cfgs, cfg{3, 1, 1, 3}, cfg{2, 2, 1, 3}, cfg{2, 1, 2, 3}, cfg{3, 1, 1, 4}, cfg{1, 2, 2, 4})
 			}
@@ -438,7 +438,7 @@ func init() {
 			"end-of-history may land on the in-progress text or on the newest entry (code comment and GNU manual differ; both accepted)",
 		}, stepAssumptions[1:]...),
 		Stubs:  []string{"regexp.Compile(regexp.QuoteMeta(x)) on symbolic x = literal substring search"},
-		Bounds: map[string]string{"quick": "h <= 2 entries of 1 char, T <= 1 char, w <= 3 commands", "thorough": "h <= 3, entries/T <= 2 chars, w <= 4"},
+		Bounds: map[string]string{"quick": "h <= 2 entries of 1 char, T <= 1 char, w <= 3 commands; plus one entry of 2 chars with w = 4", "thorough": "h <= 3, entries/T <= 2 chars, w <= 4"},
 		Rule:   "one state per completed symbolic path",
 	}
 }
@@ -689,6 +689,38 @@ func init() {
 		Stubs:  []string{"tty ioctls", "stdin = zzverif.Script", "stdout discarded"},
 		Bounds: map[string]string{"quick": "s <= 3 symbolic steps (then up to s+2 undos / 2 undos + 2 redos)", "thorough": "s <= 4"},
 		Rule:   "one state per completed symbolic path (a path = one command sequence)",
+		IgnoreKinds: []string{"panic", "hang", "deadlock", "spin"},
+	}
+}
+
+func init() {
+	checks["C03"] = &CheckDef{
+		ID: "C03",
+		Jobs: func(tier string, p *Program) []*Job {
+			var jobs []*Job
+			shapes := []string{"1", "2", "11", "12", "22"}
+			ms := []int{1, 2, 3}
+			if tier == "thorough" {
+				shapes = append(shapes, "3", "13", "23", "112", "122", "123")
+				ms = []int{1, 2, 3, 4}
+			}
+			for _, sh := range shapes {
+				for _, m := range ms {
+					j := mkJob(".ZZ_C03_Dispatch", shellSetup, "lens", sh, "m", itoa(m))
+					j.Stubs = paintStubs
+					j.Reach = []string{"resolved"}
+					jobs = append(jobs, j)
+				}
+			}
+			return jobs
+		},
+		Assumptions: append([]string{
+			"the emacs keymap is replaced by a symbolic table of T bindings (sequence lengths per job, keys symbolic over {a, b, ESC, C-x, M-a}), each bound to its own probe command; m symbolic keys over {a, b, ESC, C-x} are typed one per read in a real Readline call",
+			"only the first resolution is compared (what happens to the key that ends a failed or shortened attempt is C05's subject); macros are not part of the symbolic tables",
+		}, stepAssumptions[1:]...),
+		Stubs:  []string{"tty ioctls", "stdin = zzverif.Script", "stdout discarded"},
+		Bounds: map[string]string{"quick": "tables of <= 2 sequences of length <= 2, m <= 3 keys", "thorough": "tables of <= 3 sequences of length <= 3, m <= 4 keys"},
+		Rule:   "one state per completed symbolic path (a path = a class of tables and key strings)",
 		IgnoreKinds: []string{"panic", "hang", "deadlock", "spin"},
 	}
 }
